@@ -154,6 +154,8 @@ var opNames = []string{
 	"thrift.GetByPath(shared name path,Inner)",
 	"thrift.GetByPath(shared name path,Sparse)",
 	"thrift.SetByPath(shared name path,Sparse)",
+	"thrift.GetTree(fork of shared template,nested)",
+	"thrift.GetTree(fork of shared template,other message)",
 	"thrift.Load+Marshal(pooled)",
 	"thrift.MarshalTo(Small)",
 	"thrift.SetMany(fork)",
@@ -178,6 +180,8 @@ type fixture struct {
 	innerT   *thrift.TypeDescriptor
 	// arguments the callers own and share (read-only for the library): a path used by several ops
 	sharedPath, sharedPathInit []generic.Path
+	// a path-only query tree (what GetTree / Assgin take) shared by every caller: each call forks it
+	template generic.PathNode
 	reqT     *thrift.TypeDescriptor
 	respT    *thrift.TypeDescriptor
 	smallT   *thrift.TypeDescriptor
@@ -384,6 +388,12 @@ func newFixture() (*fixture, error) {
 	in["pbjson-bad"] = []byte(`{"msg":"pb","items":[{"a":1,"b":"x"},{"a":"zz"}],"code":7}`)
 	in["json-tiny"] = []byte(`{}`)
 	in["pbjson-cut-behind-unknown-root-key"] = []byte(`{"msg":"x","nope":`)
+	{
+		o := thriftReq(2, true)
+		o.Fs[0].V = tbin.Str("another message")
+		o.Fs[5].V = tbin.Struct(tbin.F(1, tbin.I32v(99)), tbin.F(2, tbin.Str("two")))
+		in["thrift-template-other"] = tbin.Bytes(o)
+	}
 	in["thrift-inner"] = tbin.Bytes(tbin.Struct(tbin.F(1, tbin.I32v(1)), tbin.F(2, tbin.Str("in-inner"))))
 	in["thrift-sparse"] = tbin.Bytes(tbin.Struct(tbin.F(1, tbin.Str("a-of-sparse")), tbin.F(70, tbin.Str("b-of-sparse"))))
 	in["json-number-ending-in-0"] = []byte(`{"msg":"flat","code":30}`)
@@ -593,6 +603,17 @@ func newFixture() (*fixture, error) {
 		_, err := v.SetByPath(generic.NewValue(f.sparseT.Struct().FieldById(70).Type(), tbin.Bytes(tbin.Str("set"))), sharedPath...)
 		return append(append([]byte{}, v.Raw()...), ("|path=" + pathDump())...), err
 	})
+	f.template = mkTemplate()
+	viaTemplate := func(key string) ([]byte, error) {
+		t := f.template.Fork()
+		if err := generic.NewNode(thrift.STRUCT, in[key]).GetTree(&t, &generic.Options{}); err != nil {
+			return nil, err
+		}
+		out, err := t.Marshal(&generic.Options{})
+		return append(append([]byte{}, out...), ("|" + f.argsDump())...), err
+	}
+	add("thrift.GetTree(fork of shared template,nested)", func() ([]byte, error) { return viaTemplate("thrift-nested") })
+	add("thrift.GetTree(fork of shared template,other message)", func() ([]byte, error) { return viaTemplate("thrift-template-other") })
 	add("thrift.Load+Marshal(pooled)", func() ([]byte, error) {
 		tree := generic.NewPathNode()
 		tree.Node = generic.NewNode(thrift.STRUCT, in["thrift-nested"])
@@ -719,11 +740,30 @@ func stable(v interface{}) string {
 
 // descMem is the fingerprint of every memory word reachable from the two service descriptors, unexported
 // fields included ("descriptor graphs: built once, must be read-only afterwards").
+// mkTemplate: Req.msg, Req.items[1].b, Req.one.{a,b} - paths only, no node carries a value or a type
+func mkTemplate() generic.PathNode {
+	return generic.PathNode{Next: []generic.PathNode{
+		{Path: generic.NewPathFieldId(1)},
+		{Path: generic.NewPathFieldId(2), Next: []generic.PathNode{{Path: generic.NewPathIndex(1), Next: []generic.PathNode{{Path: generic.NewPathFieldId(2)}}}}},
+		{Path: generic.NewPathFieldId(6), Next: []generic.PathNode{{Path: generic.NewPathFieldId(1)}, {Path: generic.NewPathFieldId(2)}}},
+	}}
+}
+
+func dumpTree(sb *strings.Builder, n *generic.PathNode) {
+	fmt.Fprintf(sb, "%s=%v:%x[", n.Path.String(), n.Node.Type(), n.Node.Raw())
+	for i := range n.Next {
+		dumpTree(sb, &n.Next[i])
+	}
+	sb.WriteString("]")
+}
+
 func (f *fixture) argsDump() string {
 	var sb strings.Builder
 	for _, p := range f.sharedPath {
 		fmt.Fprintf(&sb, "%s;", p.String())
 	}
+	sb.WriteString("template:")
+	dumpTree(&sb, &f.template)
 	return sb.String()
 }
 
@@ -731,6 +771,7 @@ func (f *fixture) argsDump() string {
 func (f *fixture) argsRestore() (was string, changed bool) {
 	was = f.argsDump()
 	copy(f.sharedPath, f.sharedPathInit)
+	f.template = mkTemplate()
 	return was, was != f.argsDump()
 }
 
